@@ -27,6 +27,9 @@ def pick(a, which='first', other=None, flag=False):
     return a if which == 'first' and not flag else (other if other is not None else a * 0)
 def twice(a):
     return a * 2
+def slen(a, s):
+    # sensitive to every character of a string argument (runs of blanks included)
+    return a * 0 + len(s) + 10 * s.count(' ')
 def tcode(a, *vals, **kw):
     # tells apart literals that are == but of different type (1, 1.0, True)
     codes = {'bool': 2, 'int': 3, 'float': 5, 'str': 7, 'NoneType': 11}
@@ -64,7 +67,11 @@ def _tree(rng, depth, numeric=True):
         n = 2 if rng.random() < 0.15 else 1
         return ast.Compare(_tree(rng, depth - 1), [rng.choice(CMPOPS)() for _ in range(n)],
                            [_tree(rng, depth - 1) for _ in range(n)])
-    fn = rng.choice(["add3", "pick", "twice", "tcode"])
+    fn = rng.choice(["add3", "pick", "twice", "tcode", "slen"])
+    if fn == "slen":
+        # string literals whose text contains runs of blanks (leading, inner, trailing)
+        txt = rng.choice(["a  b", "New   York", "  x", "y  ", " ", "   ", "a b", "ab", "a  b  c"])
+        return ast.Call(ast.Name("slen", ast.Load()), [_tree(rng, depth - 1), ast.Constant(txt)], [])
     if fn == "tcode":
         # literals that compare equal but differ in type, in one call (and next to an equal literal in the
         # first argument)
@@ -154,13 +161,13 @@ def _formula(c, src=None):
 def _extra():
     ns = {}
     exec(USER, ns)
-    return {k: v for k, v in ns.items() if k in ("add3", "pick", "twice", "tcode")}
+    return {k: v for k, v in ns.items() if k in ("add3", "pick", "twice", "tcode", "slen")}
 
 
 def model_cmd(c):
     import core
     return core.sshow(["c12", _formula(c), dm.frame_sexp(c["frame"]), "drop",
-                       [["add3", ["opaque"]], ["pick", ["opaque"]], ["twice", ["opaque"]], ["tcode", ["opaque"]]]])
+                       [["add3", ["opaque"]], ["pick", ["opaque"]], ["twice", ["opaque"]], ["tcode", ["opaque"]], ["slen", ["opaque"]]]])
 
 
 def impl_obs(c):
